@@ -83,19 +83,28 @@ def reference(snap, token_meta):
     """hosts the metadata must hold after a refresh on this snapshot: addr -> (dc, rack, tokens)"""
     loc = snap["local"]
     want = {CONTROL: (DCS[loc["dc"]], RACKS[loc["rack"]], tokens_of(0, loc["tok"]))}
+    maybe = {}
     invalid = 0
     for r in snap["rows"]:
         addr = PEERS[r["peer"]] if r["peer"] >= 0 else CONTROL
         bad = r["bad"]
+        val = (DCS[r["dc"]], RACKS[r["rack"]], tokens_of(r["peer"] + 1, r["tok"]))
         if bad in ("tokens-null", "tokens-empty") and not token_meta:
-            bad = None
+            # the statement ignores rows without tokens; with token metadata off the driver usually does not even select
+            # the column (but does on the first connect through system.peers): either outcome is accepted
+            invalid += 1
+            if addr not in want:
+                maybe.setdefault(addr, val)
+            continue
         if bad is not None:
             invalid += 1
             continue
         if addr in want:
             continue            # duplicate endpoint (or the control node's own address): the row is not a distinct peer
-        want[addr] = (DCS[r["dc"]], RACKS[r["rack"]], tokens_of(r["peer"] + 1, r["tok"]))
-    return want, invalid
+        want[addr] = val
+    for a in want:
+        maybe.pop(a, None)
+    return want, maybe, invalid
 
 
 def interpret(case, ctx):
@@ -135,9 +144,12 @@ def _run(case, ctx, sim):
         if ctx._failures:
             return
         sim.settle()
-        want, invalid = reference(snap, token_meta)
+        want, maybe, invalid = reference(snap, token_meta)
         hosts = dict((h.endpoint.address, h) for h in cluster.metadata.all_hosts())
         got = set(hosts)
+        for a, v in maybe.items():
+            if a in got:
+                want[a] = v
         step = "connect" if i == 0 else "refresh"
         # ---- 1. the set of known hosts
         if got != set(want):
@@ -170,7 +182,9 @@ def _run(case, ctx, sim):
                 old, new = prev[a][:2], want[a][:2]
                 mine = [(k, dc, rack) for (k, aa, dc, rack) in plog[p0:] if aa == a and k in ("up", "down")]
                 if old != new:
-                    if mine != [("down",) + old, ("up",) + new]:
+                    # (one policy instance shared by several profiles is told once per profile)
+                    k = len(mine) // 2
+                    if not mine or len(mine) % 2 or mine != [("down",) + old] * k + [("up",) + new] * k:
                         ctx.fail(["C42.relocation", "control" if a == CONTROL else "peer", "policy-not-told" if not mine else "sequence"],
                                  "step %d: %s moved %r -> %r; policy saw %r" % (i, a, old, new, mine))
                 elif mine:
@@ -190,7 +204,12 @@ def _run(case, ctx, sim):
                 if got_owner != exp_owner or ring != sorted(exp_owner):
                     changes = _changes(prev, want)
                     stale = prev is not None and got_owner == _owner(prev)
-                    ctx.fail(["C42.tokenmap", "stale" if stale else "wrong"] + changes,
+                    trigger = [c for c in changes if c in ("membership-changed", "peer-relocated", "initial")]
+                    what = [c for c in changes if c.endswith("tokens-changed")]
+                    feat = (["only-tokens-changed"] if what and not trigger else (trigger + what))
+                    if case["force"] and i == len(case["snaps"]) - 1:
+                        feat.append("forced")
+                    ctx.fail(["C42.tokenmap", "stale" if stale else "wrong"] + feat,
                              "step %d: token map owners %r, system tables %r (changes since the previous snapshot: %s)" % (
                                  i, sorted(got_owner.items()), sorted(exp_owner.items()), changes))
                     stale_seen = True
